@@ -180,6 +180,67 @@ def rule_scope_order(prog):
                     n_sites += 1
                     out.add(b["d"], "cursor identifier is not resolved against the global table where a local table is in scope",
                             False, bc.loc(n["sp"]), "global lookup of the cursor identifier next to a procedure's local table", ("site",))
+    # (3b) the scope a declaration's *type expression* is resolved in (frozen from the SPL scoping the front end implements:
+    #      type declarations and parameter types see the global scope only - earlier parameters must not shadow a type
+    #      name in a later parameter's type; local variable types are resolved inside the procedure scope)
+    TYPE_SCOPE = {"TypeDeclaration": "None", "ParameterDeclaration": "None", "VariableDeclaration": "Some"}
+    resolvers = set()
+    for b in fc.bodies:
+        if b["k"] == "fn" and "sig_in" in b and b["p"].startswith("spl_frontend::table::"):
+            ins = [fc.tstr(t) for t in b["sig_in"]]
+            if "DataType" in fc.tstr(b["sig_out"]) and any("LookupTable" in i for i in ins) and any("TypeExpression" in i for i in ins):
+                resolvers.add(b["p"])
+    n_ts = 0
+    for b in fc.bodies:
+        if not b["p"].startswith("spl_frontend::table::") or b["p"] in resolvers:
+            continue
+        owner = None
+        if "impl_self" in b:
+            st = fc.ty(b["impl_self"])
+            if st["k"] == "adt" and last(st["p"]) in TYPE_SCOPE:
+                owner = last(st["p"])
+        for q in b["params"]:
+            for pp in hir.pat_bindings(q):
+                t = fc.tstr(pp["bt"])
+                for k_ in TYPE_SCOPE:
+                    if "ast::" + k_ in t:
+                        owner = k_
+        defs_ = {}
+        for l in hir.nodes(b["body"], "Let"):
+            if l["pat"].get("k") == "Binding" and l.get("init") is not None:
+                defs_[l["pat"]["id"]] = l["init"]
+        for call in hir.nodes(b["body"], "Call"):
+            if (hir.callee(call) or "") not in resolvers:
+                continue
+            lit = None
+            for a in call["args"]:
+                a_ = hir.strip_ref(a)
+                pl = hir.path_local(a_)
+                if pl and pl["id"] in defs_:
+                    a_ = hir.strip_ref(defs_[pl["id"]])
+                if a_.get("k") == "Struct" and a_.get("adt") == LT:
+                    lit = a_
+            if owner is None:
+                continue
+            n_ts += 1
+            ok = None
+            found = "?"
+            if lit is not None:
+                f = {x["name"]: x["e"] for x in lit["fields"]}
+                lt = hir.strip(f.get("local_table", {}))
+                if lt.get("k") == "Path" and last(lt["res"].get("ctor_of", "")) == "None":
+                    found = "None"
+                elif lt.get("k") == "Call" and hir.path_def(lt["f"]) and last(hir.path_def(lt["f"]).get("ctor_of", "")) == "Some":
+                    found = "Some"
+                if found != "?":
+                    ok = found == TYPE_SCOPE[owner]
+            out.add(b["d"], "type expression of a %s is resolved in the %s scope" % (owner, "procedure" if TYPE_SCOPE[owner] == "Some" else "global"),
+                    ok, fc.loc(call["sp"]), "LookupTable.local_table is %s(..) here: %s" % (
+                        found, "an earlier parameter / local named like a type shadows the type in this declaration's type expression, "
+                        "so a valid program gets a `not a type` diagnostic" if found == "Some" else
+                        "a local declaration cannot see the procedure's scope"), ("typescope",))
+    if n_ts < 3:
+        out.missing("type-expression resolution sites in table::build (found %d)" % n_ts)
     # (4) while a LookupTable with the procedure's local table is in scope, nothing is resolved directly against the
     #     global table - except the creator of an array type, which always names a global type declaration
     for b in feature_bodies(prog):
